@@ -391,4 +391,212 @@ Section FromPathProofs.
 
   Lemma reachable_fpinv : forall root sched, FPInv root (frun sched (finit root)).
   Proof. intros. apply frun_fpinv. apply fpinv_init. Qed.
+
+  (* ---------------------------------------------------------------- deadlock freedom, draining *)
+  Lemma in_flabels_p : forall st t l, t < length (f_ptasks st) ->
+    In l [PSpawn t; PParsed t; PPush t; PObserve t] -> In l (flabels st).
+  Proof.
+    intros st t l Ht Hl. unfold flabels. apply in_or_app. left.
+    apply in_flat_map. exists t. split; [apply in_seq; lia | exact Hl].
+  Qed.
+
+  Lemma in_flabels_c : forall st c l, c < length (f_ctasks st) ->
+    In l [CConv c; CPush c; CObserve c] -> In l (flabels st).
+  Proof.
+    intros st c l Hc Hl. unfold flabels. apply in_or_app. right. apply in_or_app. right.
+    apply in_flat_map. exists c. split; [apply in_seq; lia | exact Hl].
+  Qed.
+
+  Lemma in_flabels_g : forall st l, In l [PClose; DEnd; DAbort; DRet; BEnd] -> In l (flabels st).
+  Proof. intros st l Hl. unfold flabels. apply in_or_app. right. apply in_or_app. left. exact Hl. Qed.
+
+  (* the code as it is (the dispatcher drains) and a builder that does not fail: a state in which
+     some worker has not returned has an enabled label *)
+  Lemma fdeadlock_free : forall root st, FPInv root st -> drain = true -> (forall f, abad f = false) ->
+    ffinished st = false -> exists l, In l (flabels st) /\ fenabled st l = true.
+  Proof.
+    intros root st HI Hd Ha F.
+    destruct (forallb task_terminal (f_ptasks st)) eqn:PT.
+    2:{ destruct (forallb_false_nth _ _ _ PT) as (t & [f s] & N & Q).
+        pose proof (nth_error_lt _ _ _ _ N) as Lt.
+        destruct s as [[|g rest]| | | |]; try discriminate Q.
+        - exists (PParsed t). split; [apply (in_flabels_p st t); simpl; auto|].
+          unfold PipeFromPath.fenabled. simpl. rewrite N. destruct (bad f); reflexivity.
+        - exists (PSpawn t). split; [apply (in_flabels_p st t); simpl; auto|].
+          unfold PipeFromPath.fenabled. simpl. rewrite N. reflexivity.
+        - assert (D : f_disp st = DRecv).
+          { destruct (f_disp st) eqn:D; [reflexivity| |];
+              (assert (C : f_synclosed st = true) by (apply (P_drain _ _ HI Hd); rewrite D; discriminate));
+              pose proof (P_closed _ _ HI C); congruence. }
+          exists (PPush t). split; [apply (in_flabels_p st t); simpl; auto|].
+          unfold PipeFromPath.fenabled. simpl. rewrite N, D. reflexivity. }
+    destruct (f_synclosed st) eqn:SC.
+    2:{ exists PClose. split; [apply in_flabels_g; simpl; auto|].
+        unfold PipeFromPath.fenabled. simpl. rewrite SC, PT. reflexivity. }
+    destruct (f_disp st) eqn:D.
+    - exists DEnd. split; [apply in_flabels_g; simpl; auto|].
+      unfold PipeFromPath.fenabled. simpl. rewrite D, SC. reflexivity.
+    - destruct (forallb ctask_terminal (f_ctasks st)) eqn:CT.
+      2:{ destruct (forallb_false_nth _ _ _ CT) as (c & [f s] & N & Q).
+          pose proof (nth_error_lt _ _ _ _ N) as Lt.
+          destruct s; try discriminate Q.
+          - exists (CConv c). split; [apply (in_flabels_c st c); simpl; auto|].
+            unfold PipeFromPath.fenabled. simpl. rewrite N. destruct (cbad f); reflexivity.
+          - assert (B : f_bld st = BRecv).
+            { destruct (f_bld st) eqn:B; [reflexivity| |].
+              - pose proof (P_bdone _ _ HI B). congruence.
+              - destruct (P_bfail _ _ HI B) as (f' & Hf'). pose proof (P_werrs _ _ HI _ Hf') as G.
+                simpl in G. rewrite Ha in G. discriminate. }
+            exists (CPush c). split; [apply (in_flabels_c st c); simpl; auto|].
+            unfold PipeFromPath.fenabled. simpl. rewrite N, B. simpl. destruct (abad f); reflexivity. }
+      exists DRet. split; [apply in_flabels_g; simpl; auto|].
+      unfold PipeFromPath.fenabled. simpl. rewrite D, CT. reflexivity.
+    - unfold ffinished in F. rewrite SC, D in F. simpl in F. apply negb_false_iff in F.
+      apply bstat_eqb_eq in F.
+      exists BEnd. split; [apply in_flabels_g; simpl; auto 6|].
+      unfold PipeFromPath.fenabled. simpl. rewrite F, D. reflexivity.
+  Qed.
+
+  Lemma fenabled_step : forall st l, fenabled st l = true -> exists st', fstep l st = Some st'.
+  Proof. intros st l H. unfold PipeFromPath.fenabled in H. destruct (fstep l st) as [st'|]; [eauto|discriminate]. Qed.
+
+  Lemma fdrain_finishes_from : forall root fuel st, FPInv root st -> drain = true ->
+    (forall f, abad f = false) -> fmu st <= fuel -> ffinished (fdrain fuel st) = true.
+  Proof.
+    intros root. induction fuel as [|fuel IH]; intros st HI Hd Ha Hm.
+    - simpl. destruct (ffinished st) eqn:F; [reflexivity|]. exfalso.
+      destruct (fdeadlock_free root st HI Hd Ha F) as (l & _ & En).
+      destruct (fenabled_step st l En) as (st' & S). pose proof (fstep_decreases l st st' S). lia.
+    - simpl. destruct (fpick st) as [l|] eqn:P.
+      + unfold PipeFromPath.fpick in P. apply find_some in P. destruct P as [_ En].
+        destruct (fenabled_step st l En) as (st' & S).
+        unfold PipeFromPath.fstep_or_stay. rewrite S.
+        apply IH; auto; [eapply fstep_fpinv; eassumption|].
+        pose proof (fstep_decreases l st st' S). lia.
+      + destruct (ffinished st) eqn:F; [reflexivity|]. exfalso.
+        destruct (fdeadlock_free root st HI Hd Ha F) as (l & Hin & En).
+        unfold PipeFromPath.fpick in P. pose proof (find_none _ _ P l Hin). congruence.
+  Qed.
+
+  (* ---------------------------------------------------------------- outcomes *)
+  Lemma terminal_ppend_nil : forall l, forallb task_terminal l = true ->
+    (forall t, In t l -> t_st t <> PFail /\ t_st t <> PCancel) -> flat_map ppend l = [].
+  Proof.
+    induction l as [|[f s] l IH]; intros F L; simpl in *; [reflexivity|].
+    apply andb_true_iff in F. destruct F as [F1 F2].
+    rewrite (IH F2 ltac:(intros; apply L; right; assumption)).
+    destruct (L (mkTask f s) (or_introl eq_refl)) as [A B]. simpl in A, B.
+    unfold task_terminal in F1. simpl in F1. unfold ppend. simpl.
+    destruct s; try discriminate; try congruence; reflexivity.
+  Qed.
+
+  Lemma terminal_cpend_nil : forall l, forallb ctask_terminal l = true ->
+    (forall c, In c l -> c_st c <> CFail /\ c_st c <> CCancel) -> flat_map cpend l = [].
+  Proof.
+    induction l as [|[f s] l IH]; intros F L; simpl in *; [reflexivity|].
+    apply andb_true_iff in F. destruct F as [F1 F2].
+    rewrite (IH F2 ltac:(intros; apply L; right; assumption)).
+    destruct (L (mkC f s) (or_introl eq_refl)) as [A B]. simpl in A, B.
+    unfold ctask_terminal in F1. simpl in F1. unfold cpend. simpl.
+    destruct s; try discriminate; try congruence; reflexivity.
+  Qed.
+
+  Lemma ffinished_spec : forall st, ffinished st = true ->
+    f_synclosed st = true /\ f_disp st = DDone /\ f_bld st <> BRecv.
+  Proof.
+    intros st F. unfold ffinished in F. apply andb_true_iff in F. destruct F as [F F3].
+    apply andb_true_iff in F. destruct F as [F1 F2]. apply dstat_eqb_eq in F2.
+    apply negb_true_iff in F3. repeat split; auto. intros B. rewrite B in F3. discriminate.
+  Qed.
+
+  (* FromPath returns without error: every file of the include tree (one copy per include path)
+     has been parsed, converted and added to the builder exactly once, and no stage failed or was
+     cancelled - whatever the oracles are *)
+  Lemma ffinished_success : forall root st, FPInv root st -> ffinished st = true -> f_werrs st = [] ->
+    Permutation (f_added st) (E root) /\ f_bld st = BDone /\ f_perrs st = [] /\ f_cerrs st = [] /\
+    f_pcancel st = false /\ f_ccancel st = false.
+  Proof.
+    intros root st HI F We. destruct (ffinished_spec st F) as (SC & D & B).
+    pose proof (P_wparse _ _ HI We SC) as Pe. pose proof (P_wconv _ _ HI We D) as Ce.
+    destruct (P_pclean _ _ HI Pe) as [Pc Pl]. destruct (P_cclean _ _ HI Ce) as [Cc Cl].
+    assert (BD : f_bld st = BDone).
+    { destruct (f_bld st) eqn:Bs; [congruence|reflexivity|].
+      destruct (P_bfail _ _ HI Bs) as (f & Hf). rewrite We in Hf. contradiction. }
+    repeat split; auto.
+    apply (Permutation_count_occ Nat.eq_dec). intros x. rewrite <- (P_count _ _ HI x).
+    rewrite We, (terminal_ppend_nil _ (P_closed _ _ HI SC) Pl), (terminal_cpend_nil _ (P_ddone _ _ HI D) Cl).
+    simpl. rewrite app_nil_r. reflexivity.
+  Qed.
+
+  (* a failure in any of the three stages is reported once the workers have returned, and every
+     reported error - in particular the first, which FromPath returns - is the error of a stage
+     function that did fail *)
+  Lemma ffailure_reported : forall root st, FPInv root st -> ffinished st = true ->
+    (exists t, In t (f_ptasks st) /\ t_st t = PFail) \/
+    (exists c, In c (f_ctasks st) /\ c_st c = CFail) \/ f_bld st = BFail ->
+    exists e rest, f_werrs st = e :: rest /\ genuine bad cbad abad e = true.
+  Proof.
+    intros root st HI F Hf. destruct (f_werrs st) as [|e rest] eqn:We.
+    - exfalso. destruct (ffinished_success root st HI F We) as (_ & BD & Pe & Ce & _).
+      destruct Hf as [(t & Ht & Pt)|[(c & Hc & Pc)|Bf]].
+      + destruct (P_pclean _ _ HI Pe) as [_ Pl]. destruct (Pl t Ht). congruence.
+      + destruct (P_cclean _ _ HI Ce) as [_ Cl]. destruct (Cl c Hc). congruence.
+      + congruence.
+    - exists e, rest. split; [reflexivity|]. apply (P_werrs _ _ HI). rewrite We. left. reflexivity.
+  Qed.
+
+  Lemma nofail_no_werrs : forall root st, FPInv root st ->
+    (forall f, bad f = false) -> (forall f, cbad f = false) -> (forall f, abad f = false) ->
+    f_werrs st = [].
+  Proof.
+    intros root st HI Hb Hc Ha. destruct (f_werrs st) as [|e rest] eqn:We; [reflexivity|].
+    pose proof (P_werrs _ _ HI e) as G. rewrite We in G. specialize (G (or_introl eq_refl)).
+    destruct e; simpl in G; congruence.
+  Qed.
 End FromPathProofs.
+
+(* ------------------------------------------------------------------------------------------
+   Two ways to block forever.  One file (0) that includes another (1).                        *)
+Definition inc01 (f : nat) : list nat := match f with 0 => [1] | _ => [] end.
+Definition none (f : nat) : bool := false.
+Definition is1 (f : nat) : bool := f =? 1.
+
+(* (a) model.FromStream returns at the first conversion error instead of draining (drain = false):
+   file 1 is delivered and fails to convert, the dispatcher stops receiving, and the task of the
+   root file blocks in Push forever - syntaxCh is never closed, worker1 never returns. *)
+Definition nodrain_sched : list flabel :=
+  [PSpawn 0; PParsed 1; PPush 1; CConv 0; DAbort; PParsed 0; DRet; BEnd].
+
+Lemma nodrain_blocks :
+  let st := frun inc01 none is1 none false nodrain_sched (finit inc01 0) in
+  ffinished st = false /\ stuck_pusher st = true /\ f_pcancel st = false /\
+  (forall l, fstep inc01 none is1 none false l st = None).
+Proof.
+  vm_compute frun. repeat split.
+  intros l. destruct l as [t|t|t|t| | | | |c|c|c| ]; try reflexivity;
+    try (destruct t as [|[|[|t]]]; reflexivity); destruct c as [|[|c]]; reflexivity.
+Qed.
+
+(* the same instance and schedule with the drain (the label DAbort is disabled) can go on *)
+Lemma drain_same_instance :
+  let st := fdrain inc01 none is1 none true 30
+              (frun inc01 none is1 none true nodrain_sched (finit inc01 0)) in
+  foutcome_of st = FErr (WConv 1).
+Proof. vm_compute. reflexivity. Qed.
+
+(* (b) the code as it is (drain = true), if Builder.Add could fail: the builder returns the error
+   and stops receiving; the outer context is not cancelled and the inner one only by a conversion
+   error, so the next conversion task blocks in Push forever and wg.Wait never returns. *)
+Definition addfail_sched : list flabel :=
+  [PSpawn 0; PParsed 1; PPush 1; CConv 0; CPush 0; PParsed 0; PPush 0; CConv 1; PClose; DEnd].
+
+Lemma builder_error_blocks :
+  let st := frun inc01 none none is1 true addfail_sched (finit inc01 0) in
+  ffinished st = false /\ stuck_pusher st = true /\ f_ccancel st = false /\
+  f_werrs st = [WAdd 1] /\
+  (forall l, fstep inc01 none none is1 true l st = None).
+Proof.
+  vm_compute frun. repeat split.
+  intros l. destruct l as [t|t|t|t| | | | |c|c|c| ]; try reflexivity;
+    try (destruct t as [|[|[|t]]]; reflexivity); destruct c as [|[|[|c]]]; reflexivity.
+Qed.
